@@ -101,10 +101,8 @@ Proof.
   { eapply suffix_trans; [exact S2|]. eapply suffix_trans; [exact S1'|]. eapply suffix_trans; [exact S1|exact S0]. }
   split; [apply infix_take_suffix; exact S3|].
   rewrite (len_take n r3 El).
-  rewrite len_drop in L1, L2.
   (* a read succeeded after each skip, so each skip stayed inside the input *)
-  assert (len (drop 4 tx) > 0) by lia. assert (len (drop 36 r1) > 0) by lia.
-  rewrite len_drop in *. lia.
+  rewrite len_drop in L1, L2. lia.
 Qed.
 
 Lemma script_sig_alloc_linear_lemma : forall tx, script_sig_alloc tx <= len tx.
